@@ -207,7 +207,7 @@ def ufuncResult (c : UfuncCall) : Except SErr Res :=
     subok=True)`; `data.shape == ()` → `unyt_quantity`, else `unyt_array` (a copy either way);
     `kindOk`: `data.dtype.kind in "fuic"` -/
 def unitMulData (kindOk : Bool) (sh : Shape) : Except SErr Res :=
-  if !kindOk then .error .RuntimeError   -- InvalidUnitOperation
+  if !kindOk then .error .InvalidUnitOperation
   else if sh = [] then .ok ⟨.uquantity, []⟩
   else .ok ⟨.uarray, sh⟩
 
@@ -349,7 +349,7 @@ def arrayNew (cls : PyCls) (inp : NewInput) (bypass : Bool) : Except SErr NewRes
     | .emptyList => .ok ⟨⟨cls, [0]⟩, false⟩
     | .pyscalar => .ok ⟨⟨cls, []⟩, false⟩
     | .npnumber => .ok ⟨⟨cls, []⟩, false⟩
-    | .nonNumeric => .error .IterableUnitCoercionError     -- dtype.char in DISALLOWED_DTYPES (via Unit/​asarray paths)
+    | .nonNumeric => .ok ⟨⟨cls, []⟩, false⟩                -- np.asarray('abc').view(cls): not refused here
 
 /-- array.py:`unyt_quantity.__new__`: numeric check, `unyt_array.__new__(cls, np.asarray(x), …)`,
     `if ret.size > 1: raise RuntimeError` -/
